@@ -457,6 +457,17 @@ func genC03() *rapid.Generator[c03Case] {
 				i := rapid.IntRange(0, min(len(b)-1, 27)).Draw(t, "i")
 				b[i] = rapid.Byte().Draw(t, "v")
 			}
+			// the fields the reader may or may not consult are fields like any other: UDP length (consistent by
+			// construction so far), fragment word, header checksum, UDP checksum
+			if ihl := 20; len(b) >= 28 && int(b[0]&0xf)*4 >= 20 && len(b) >= int(b[0]&0xf)*4+8 && rapid.IntRange(0, 2).Draw(t, "udplen") == 0 {
+				ihl = int(b[0]&0xf) * 4
+				ul := rapid.SampledFrom([]int{0, 1, 2, 3, 4, 5, 6, 7, 8, 9, 0xffff, len(b) - ihl - 1, len(b) - ihl + 1}).Draw(t, "ul")
+				b[ihl+4], b[ihl+5] = byte(ul>>8), byte(ul)
+			}
+			if len(b) >= 20 && rapid.IntRange(0, 3).Draw(t, "fragword") == 0 {
+				fw := rapid.SampledFrom([]int{0x4000, 0x2000, 0x8000, 0x0001, 0x1fff, 0xffff}).Draw(t, "fw")
+				b[6], b[7] = byte(fw>>8), byte(fw)
+			}
 			c.B = b
 			c.Bound = rapid.SampledFrom([]int{0, 0, 1, 2}).Draw(t, "bound")
 		case "netboot6":
@@ -663,6 +674,33 @@ func TestC03_DeepRelay(t *testing.T) {
 // TestC03_LongOptions: decoded DHCPv4 packets whose option values have every total length around the multiples of
 // 255 and 256 (up to 1,300 octets, arriving as consecutive instances), alone, next to other options, and inside a
 // DHCPv4-in-DHCPv6 option: every read-only operation, re-encoding included, returns normally.
+// TestC03_RawFields: well-formed frames for the bound port in which one field the reader need not trust takes every
+// small or extreme value: UDP length 0..16 / 0xffff / actual±1, fragment word, for IP headers of 20, 24 and 60 octets
+// and payloads of 0, 1, 8 and 300 octets — read through every binding of the connection.
+func TestC03_RawFields(t *testing.T) {
+	for _, ihl := range []int{5, 6, 15} {
+		for _, plen := range []int{0, 1, 8, 300} {
+			base := refip.Build(ihl, bytes.Repeat([]byte{1}, (ihl-5)*4), -1, 17, [4]byte{10, 0, 0, 1}, [4]byte{255, 255, 255, 255}, 67, 68, bytes.Repeat([]byte{0x5a}, plen), nil)
+			var uls []int
+			for v := 0; v <= 16; v++ {
+				uls = append(uls, v)
+			}
+			uls = append(uls, 0xffff, 0x8000, 8+plen-1, 8+plen+1)
+			for _, ul := range uls {
+				for _, fw := range []int{0, 0x4000} {
+					f := append([]byte{}, base...)
+					f[ihl*4+4], f[ihl*4+5] = byte(ul>>8), byte(ul)
+					f[6], f[7] = byte(fw>>8), byte(fw)
+					for bound := 0; bound <= 2; bound++ {
+						c03.one(t, c03Case{Entry: "raw", B: f, Bound: bound})
+					}
+				}
+			}
+		}
+	}
+	c03.rec.Class("raw frames with hostile UDP length / fragment words")
+}
+
 func TestC03_LongOptions(t *testing.T) {
 	var lens []int
 	for _, c := range []int{255, 510, 765, 1020, 1275} {
